@@ -22,10 +22,16 @@ Definition prim_bits (k : dkind) : Z := match k with D64 => 64 | D128 => 128 end
 
 (* MAX_PRECISION of the two decimal types: parameters, instantiated from the source constants
    (gen/TablesArith.v) in the theorems and by the driver *)
-(* pow_i32: IntToDecimal::bind computes the scale factor as `10.pow(scale)` on an *i32* literal
-   (cast/builtin/to_decimal.rs), so for scale >= 10 it panics (overflow checks) or wraps (release);
-   false = computed on the decimal primitive (what DecimalToDecimal::bind does) *)
-Record dparams := { max64 : Z; max128 : Z; pow_i32 : bool }.
+(* Two switches record which variant of cast/builtin/to_decimal.rs the source has (read by
+   vlib/tables_arith.py); the current source (after "fix: casts to decimal must validate the precision
+   and compute scale factors without overflow") has pow_i32 = false, d2d_validates = true:
+   pow_i32       true: IntToDecimal::bind computes the scale factor as `10.pow(scale)` on an *i32*
+                 literal (scale >= 10: panic with overflow checks, a wrapped factor in release);
+                 false: num_traits::checked_pow on the decimal primitive (bind error if it does not fit)
+   d2d_validates true: DecimalToDecimal::cast validates the rescaled value against the target precision
+                 (and bind fails if 10^|scale diff| does not fit the target primitive);
+                 false: the rescaled value is stored unvalidated *)
+Record dparams := { max64 : Z; max128 : Z; pow_i32 : bool; d2d_validates : bool }.
 Definition max_prec (P : dparams) (k : dkind) : Z := match k with D64 => max64 P | D128 => max128 P end.
 
 (* DecimalTypeMeta::new_for_datatype_id for the signed integer widths (scale 0) *)
@@ -62,18 +68,25 @@ Definition validate_precision (P : dparams) (k : dkind) (v p : Z) : bool :=
 Definition checked (k : dkind) (x : Z) : outcome Z := if in_range Signed (prim_bits k) x then Ok x else Err.
 
 (* casting one operand to the common type (p', s'):
-   - a decimal operand whose meta already equals (p', s') is left alone; otherwise
-     DecimalToDecimal: upscale = checked_mul by 10^(s'-s) (no precision validation), s' >= s always here
-   - an integer operand: IntToDecimal: scale factor 10^s' (computed in i32 when pow_i32, at bind time),
-     checked_mul (scale > 0) / checked_div (scale = 0: factor 1), then validate_precision against p' *)
-Definition int_scale_amount (P : dparams) (m : mode) (s : Z) : outcome Z :=
-  if pow_i32 P then arith_result Native m Signed 32 (10 ^ s) else Ok (10 ^ s).
+   - a decimal operand whose meta already equals (p', s') is left alone; otherwise DecimalToDecimal
+     (s' >= s always here): scale factor 10^(s'-s) by checked_pow on the primitive, checked_mul, then
+     validate_precision against p'
+   - an integer operand: IntToDecimal: scale factor 10^s' by checked_pow on the primitive, checked_mul
+     (scale > 0) / checked_div (scale = 0: factor 1), then validate_precision against p' *)
+Definition int_scale_amount (P : dparams) (m : mode) (k : dkind) (s : Z) : outcome Z :=
+  if pow_i32 P then arith_result Native m Signed 32 (10 ^ s) else checked k (10 ^ s).
 
 Definition cast_operand (P : dparams) (m : mode) (k : dkind) (p' s' : Z) (o : operand) : outcome Z :=
   match o with
-  | ODec p s v => if (p =? p') && (s =? s') then Ok v else checked k (v * 10 ^ (s' - s))
+  | ODec p s v =>
+    if (p =? p') && (s =? s') then Ok v
+    else if d2d_validates P then
+      bind_out (checked k (10 ^ (s' - s))) (fun amt =>
+      bind_out (checked k (v * amt)) (fun x =>
+        if validate_precision P k x p' then Ok x else Err))
+    else checked k (v * 10 ^ (s' - s))
   | OInt w v =>
-    bind_out (int_scale_amount P m s') (fun amt =>
+    bind_out (int_scale_amount P m k s') (fun amt =>
     bind_out (checked k (v * amt)) (fun x =>
       if validate_precision P k x p' then Ok x else Err))
   end.
